@@ -82,6 +82,7 @@ type Run struct {
 	notExh      []string
 
 	scen    map[string]Replayer
+	onWedge []func()
 	viol    []Violation
 	perScen map[string]int
 	nviol   int
@@ -125,11 +126,19 @@ func New(id, level string) *Run {
 	return r
 }
 
-// stallMonitor ends a wedged check as a harness error: no evaluation was recorded for a long
-// time (a change under test that blocks or spins outside what this property's exploration
-// guards).  It never produces a violation.
+// Impatient shortens the patience of the stall monitor: set once a failure or a suspect has been recorded
+// (a wedge after that most likely belongs to the same defect, and what was found should be reported soon).
+var Impatient atomic.Bool
+
+// OnWedge registers work to do when the check is found wedged, before what has been found is reported
+// (e.g. deciding cases that were cut off and queued).
+func (r *Run) OnWedge(f func()) { r.mu.Lock(); r.onWedge = append(r.onWedge, f); r.mu.Unlock() }
+
+// stallMonitor ends a wedged check: no evaluation was recorded for a long time (a change under test that
+// blocks or spins outside what this property's exploration guards).  The wedge itself never produces a
+// violation: if violations had already been recorded they are confirmed and reported as usual (the evidence
+// says exhaustive=false, wedged); otherwise the check ends as a harness error.
 func (r *Run) stallMonitor() {
-	limit := 900 * time.Second
 	last, since := r.evals.Load()+r.states.Load(), time.Now()
 	for {
 		time.Sleep(5 * time.Second)
@@ -137,7 +146,25 @@ func (r *Run) stallMonitor() {
 			last, since = cur, time.Now()
 			continue
 		}
+		limit := 900 * time.Second
+		if Impatient.Load() {
+			limit = 180 * time.Second
+		}
 		if time.Since(since) > limit {
+			r.mu.Lock()
+			hooks := r.onWedge
+			r.mu.Unlock()
+			for _, h := range hooks {
+				func() {
+					defer func() { recover() }()
+					h()
+				}()
+			}
+			if r.Violations() > 0 {
+				r.NotExhaustive(fmt.Sprintf("wedged: no evaluation recorded for %v; the exploration was abandoned and what had been found is reported", limit))
+				fmt.Fprintf(os.Stderr, "note: %s made no progress for %v (wedged); reporting the violations found so far\n", r.ID, limit)
+				os.Exit(r.Finish())
+			}
 			fmt.Fprintf(os.Stderr, "HARNESS-ERROR: %s made no progress for %v (wedged); giving up\n", r.ID, limit)
 			os.Exit(2)
 		}
@@ -236,6 +263,7 @@ func (r *Run) Fail(scenario, sig string, c any, want, got string) {
 		}
 	}
 	r.nviol++
+	Impatient.Store(true)
 	if r.perScen == nil {
 		r.perScen = map[string]int{}
 	}
